@@ -8,6 +8,7 @@ import (
 	"strconv"
 	"strings"
 	"testing"
+	"unicode/utf8"
 
 	"github.com/ozontech/file.d/pipeline"
 	. "github.com/ozontech/file.d/zzverif/vjson"
@@ -32,11 +33,37 @@ var alphabet = []evSpec{
 	{Doc: `{"idx":"a\"b"}`},
 	{Doc: `{"a":"parent"}`, Kind: "parent"},
 	{Doc: `{"a":"child"}`, Kind: "child"},
-	{Doc: `{"ts":"1700000000000000000","a":"t\"s","lvl":"e"}`},
+	{Doc: `{"ts":"1700000000000000000","a":"t\"s","lvl":"e","z":"1"}`},
 	{Doc: `{"message":"m\"q","host":"h","level":3,"time":1700000000}`},
 }
 
 func (s evSpec) deliverable() bool { return s.Kind != "parent" }
+
+// documents with bytes that are not UTF-8 travel as base64 in replay files
+type evSpecJSON struct {
+	Doc  string `json:"doc,omitempty"`
+	Raw  []byte `json:"raw_base64,omitempty"`
+	Kind string `json:"kind,omitempty"`
+}
+
+func (s evSpec) MarshalJSON() ([]byte, error) {
+	if utf8.ValidString(s.Doc) {
+		return json.Marshal(evSpecJSON{Doc: s.Doc, Kind: s.Kind})
+	}
+	return json.Marshal(evSpecJSON{Raw: []byte(s.Doc), Kind: s.Kind})
+}
+
+func (s *evSpec) UnmarshalJSON(b []byte) error {
+	var j evSpecJSON
+	if err := json.Unmarshal(b, &j); err != nil {
+		return err
+	}
+	s.Doc, s.Kind = j.Doc, j.Kind
+	if j.Raw != nil {
+		s.Doc = string(j.Raw)
+	}
+	return nil
+}
 
 func build(specs []evSpec) (*pipeline.Batch, error) {
 	evs := make([]*pipeline.Event, 0, len(specs))
@@ -175,14 +202,15 @@ func (w *worker) record(body []byte, docs int, route string) int {
 }
 
 type target struct {
-	name     string // output/variant
-	output   string
-	variant  string
-	buf      string // per-worker buffer sizing (avgEventSize); part of the case, not of the violation features
-	split    bool
-	canFail  bool
-	slowFail bool // a failed send sleeps (gelf): only a few retry cases are run
-	cur      *worker
+	name         string // output/variant
+	output       string
+	variant      string
+	buf          string // per-worker buffer sizing (avgEventSize); part of the case, not of the violation features
+	split        bool
+	canFail      bool
+	slowFail     bool // a failed send sleeps (gelf): only a few retry cases are run
+	isolateRetry bool // retried batches are executed in a child process (they may not terminate)
+	cur          *worker
 
 	newWorker func(t *target) *worker
 	out       func(w *worker, b *pipeline.Batch) error
@@ -192,6 +220,8 @@ type target struct {
 	match func(t *target, want *V, got *V) bool
 	// trigger classifies the batch for narrow known-finding matching
 	trigger func(t *target, specs []evSpec) string
+	// normalize removes wall-clock values from a payload before it is hashed as an outcome
+	normalize func(body []byte) []byte
 	// carries: false = this sink variant has nothing to send for the event (http raw encoding without the field)
 	carries func(ev *V) bool
 	// route is the expected routing value (index / topic) of an event, "" = not checked
@@ -241,7 +271,54 @@ type tcase struct {
 type checker struct {
 	r       *vreport.Run
 	targets map[string]*target
+	res     *caseResult // result of the case being executed
+	replay  bool
+	scratch string
 }
+
+// caseResult is everything one case contributes to the evidence; it is what an isolated child process sends back.
+type caseResult struct {
+	Steps      int64            `json:"steps"`
+	Nontrivial bool             `json:"nontrivial"`
+	Outcome    []string         `json:"outcome"`
+	Sample     any              `json:"sample,omitempty"`
+	Counters   map[string]int64 `json:"counters,omitempty"`
+	Viol       *violRec         `json:"viol,omitempty"`
+}
+
+type violRec struct {
+	Clause   string            `json:"clause"`
+	Features map[string]string `json:"features"`
+	Detail   string            `json:"detail"`
+}
+
+func (c *checker) count(k string) {
+	if c.res.Counters == nil {
+		c.res.Counters = map[string]int64{}
+	}
+	c.res.Counters[k]++
+}
+
+// apply feeds the result of one case into the evidence.
+func (c *checker) apply(tc tcase, res caseResult) {
+	r := c.r
+	r.Case()
+	r.Steps(res.Steps)
+	for k, n := range res.Counters {
+		r.Count(k, n)
+	}
+	if res.Viol != nil {
+		r.Violation(res.Viol.Clause, res.Viol.Features, res.Viol.Detail, tc)
+		return
+	}
+	if res.Nontrivial {
+		r.Nontrivial()
+	}
+	r.Outcome(res.Outcome...)
+	r.Sample(res.Sample)
+}
+
+func (c *checker) runCase(tc tcase) { c.apply(tc, c.exec(tc)) }
 
 func (c *checker) violation(t *target, phase, trigger string, p *problem, tc tcase) {
 	clause := p.clause
@@ -253,7 +330,7 @@ func (c *checker) violation(t *target, phase, trigger string, p *problem, tc tca
 	if clause == "panic" {
 		feats["site"] = vreport.PanicSite(p.detail)
 	}
-	c.r.Violation(clause, feats, fmt.Sprintf("target=%s script=%s phase=%s batches=%s\n%s", t.name, tc.Script, phase, mustJSON(tc.Batches), p.detail), tc)
+	c.res.Viol = &violRec{clause, feats, fmt.Sprintf("target=%s script=%s phase=%s batches=%s\n%s", t.name, tc.Script, phase, mustJSON(tc.Batches), p.detail)}
 }
 
 func mustJSON(x any) string {
@@ -391,7 +468,7 @@ func (c *checker) verify(t *target, specs []evSpec, sc script, txs []tx, outErr 
 		}
 	}
 	if aborted {
-		c.r.Count("split_runs_aborted_by_design", 1)
+		c.count("split_runs_aborted_by_design")
 		return c.compareSplit(t, acc, want, false)
 	}
 	return c.compareSplit(t, acc, want, true)
@@ -414,18 +491,22 @@ func (c *checker) routes(t *target, fs []frame, want []*V) {
 	for i := range want {
 		if i < len(fs) {
 			if exp := t.route(t, want[i]); exp != "" && exp != fs[i].route {
-				c.r.Count("info_route_differs_"+t.output, 1)
+				c.count("info_route_differs_" + t.output)
 			}
 		}
 	}
 }
 
-func (c *checker) payloadKey(txs []tx) string {
+func (c *checker) payloadKey(t *target, txs []tx) string {
 	var sb strings.Builder
 	for _, x := range txs {
 		sb.WriteString(strconv.Itoa(x.status))
 		sb.WriteByte(':')
-		sb.Write(x.body)
+		if t.normalize != nil {
+			sb.Write(t.normalize(x.body))
+		} else {
+			sb.Write(x.body)
+		}
 		sb.WriteByte(0xfe)
 	}
 	return sb.String()
@@ -433,13 +514,12 @@ func (c *checker) payloadKey(txs []tx) string {
 
 // runCase: batches go one after the other through one WorkerData; with Retry the first out() of the last batch
 // is refused and out() is called again on the same batch (what RetriableBatcher.Out does).
-func (c *checker) runCase(tc tcase) {
-	r := c.r
+func (c *checker) exec(tc tcase) (res caseResult) {
+	c.res = &res
 	t := c.targets[tc.Target]
 	if t == nil {
 		panic("unknown target " + tc.Target)
 	}
-	r.Case()
 	w := t.worker()
 	nontrivial := len(tc.Batches) > 1 || tc.Retry || tc.Script.Kind != "ok"
 	var key []string
@@ -476,7 +556,7 @@ func (c *checker) runCase(tc tcase) {
 			}
 		}
 		txs, outErr, pan := t.call(w, b, sc)
-		r.Steps(1)
+		res.Steps++
 		if pan != "" {
 			c.violation(t, phase, trig, &problem{"panic", pan}, tc)
 			return
@@ -485,18 +565,22 @@ func (c *checker) runCase(tc tcase) {
 			c.violation(t, phase, trig, p, tc)
 			return
 		}
-		key = append(key, c.payloadKey(txs))
+		key = append(key, c.payloadKey(t, txs))
+		if len(txs) > 0 && !utf8.Valid(txs[0].body) {
+			c.count("info_payload_with_invalid_utf8_" + t.output)
+		}
+		c.eventsAfter(t, b, specs)
 		if tc.Retry && last {
 			if outErr == nil {
 				// the refusal was not reported as an error: the batcher would not call again
-				r.Count("retry_not_requested_"+t.output, 1)
+				c.count("retry_not_requested_" + t.output)
 				break
 			}
 			if t.output == "gelf" {
 				gelfReconnect(w)
 			}
 			txs2, _, pan := t.call(w, b, script{Kind: "ok"})
-			r.Steps(1)
+			res.Steps++
 			if pan != "" {
 				c.violation(t, "retry", trig, &problem{"panic", pan}, tc)
 				return
@@ -506,16 +590,38 @@ func (c *checker) runCase(tc tcase) {
 				return
 			}
 			if len(txs2) > 0 && len(txs) > 0 && !bytes.Equal(txs2[0].body, txs[0].body) {
-				r.Count("info_retry_payload_bytes_differ_"+t.output, 1)
+				c.count("info_retry_payload_bytes_differ_" + t.output)
 			}
-			key = append(key, c.payloadKey(txs2))
+			key = append(key, c.payloadKey(t, txs2))
 		}
 	}
-	if nontrivial {
-		r.Nontrivial()
+	res.Nontrivial = nontrivial
+	res.Outcome = append([]string{t.name, tc.Script.String()}, key...)
+	res.Sample = (map[string]any{"target": t.name, "script": tc.Script.String(), "retry": tc.Retry, "batches": tc.Batches, "last_payload": lastOf(key)})
+	return
+}
+
+// eventsAfter: informational - does out() leave the events of the batch as they were?
+func (c *checker) eventsAfter(t *target, b *pipeline.Batch, specs []evSpec) {
+	var want []*V
+	for _, s := range specs {
+		if s.deliverable() {
+			want = append(want, parseSpec(s))
+		}
 	}
-	r.Outcome(append([]string{t.name, tc.Script.String()}, key...)...)
-	r.Sample(map[string]any{"target": t.name, "script": tc.Script.String(), "retry": tc.Retry, "batches": tc.Batches, "last_payload": lastOf(key)})
+	i := 0
+	b.ForEach(func(e *pipeline.Event) {
+		if i < len(want) {
+			got, err := Parse(e.Root.EncodeToString())
+			if err != nil || !same(got, want[i]) {
+				c.count("info_event_changed_by_out_" + t.output)
+				if c.replay {
+					fmt.Printf("REPLAY INFO event %d after out(): %s (was %s)\n", i, e.Root.EncodeToString(), want[i])
+				}
+			}
+		}
+		i++
+	})
 }
 
 func lastOf(k []string) string {
@@ -562,30 +668,39 @@ func deliverableCount(specs []evSpec) int {
 
 func TestVerif(t *testing.T) {
 	vplug.Quiet()
-	r := vreport.Start("C19")
-	defer r.Finish()
 	workDir := os.Getenv("VERIF_WORK")
 	if workDir == "" {
 		workDir = os.TempDir()
 	}
-	scratch, err := os.MkdirTemp(workDir, fmt.Sprintf("c19-shard%d-", r.R.Shard))
+	scratch, err := os.MkdirTemp(workDir, "c19-run-")
 	if err != nil {
 		t.Fatal(err)
 	}
 	defer os.RemoveAll(scratch)
-
-	c := &checker{r: r, targets: map[string]*target{}}
-	tlist := makeTargets(scratch)
+	c := &checker{targets: map[string]*target{}, scratch: scratch}
+	if isChild() {
+		childMain(c)
+		return
+	}
+	tlist := makeTargets(scratch, func(string) bool { return true })
 	for _, tg := range tlist {
 		c.targets[tg.name] = tg
 	}
+	r := vreport.Start("C19")
+	defer r.Finish()
+	c.r = r
+	c.replay = r.Replaying()
 
 	if rc := r.ReplayCase(); rc != nil {
 		var tc tcase
 		if err := json.Unmarshal(rc, &tc); err != nil {
 			t.Fatal(err)
 		}
-		c.runCase(tc)
+		if tg := c.targets[tc.Target]; tg != nil && tg.isolateRetry && tc.Retry {
+			c.runIsolated([]tcase{tc})
+		} else {
+			c.runCase(tc)
+		}
 		for _, v := range r.R.Violations {
 			fmt.Printf("REPLAY VIOLATION %s %v: %s\n", v.Clause, v.Features, v.Detail)
 		}
@@ -600,16 +715,32 @@ func TestVerif(t *testing.T) {
 		all[i] = i
 	}
 	single := batches(all, 3)
-	// sequences (buffer reuse): a reduced alphabet with short / long / omitted / routing-hostile events
-	seqIdx := []int{0, 3, 6, 5}
-	seqMax, seqDepth := 2, 3
-	seqIdx2 := []int{0, 3, 6, 5, 8}
+	// sequences (buffer reuse): reduced alphabets with short / long / omitted / routing-hostile events
+	seqIdx, seqMax, seqDepth := []int{0, 3, 6, 5}, 2, 3
+	pairIdx := []int{0, 3, 6, 5}
 	if r.Thorough() {
-		seqIdx = []int{0, 3, 6, 5, 2}
-		seqMax = 3
+		pairIdx = []int{0, 3, 6, 5, 8, 2}
 	}
+	// retried batches that run in a child process (loki): every non-terminating case costs a process
+	isoMax := 2
+	if r.Thorough() {
+		isoMax = 3
+	}
+	r.Bound("isolated_retry_max_events", isoMax)
 	seqB := batches(seqIdx, seqMax)
-	pairB := batches(seqIdx2, 3)
+	if r.Thorough() {
+		// plus every batch of <=3 events over {empty, long, omitted parent}: growing and shrinking sizes
+		seen := map[string]bool{}
+		for _, b := range seqB {
+			seen[mustJSON(b)] = true
+		}
+		for _, b := range batches([]int{0, 3, 6}, 3) {
+			if !seen[mustJSON(b)] {
+				seqB = append(seqB, b)
+			}
+		}
+	}
+	pairB := batches(pairIdx, 3)
 	r.Bound("alphabet", len(alphabet))
 	r.Bound("max_events_per_batch", 3)
 	r.Bound("single_batches", len(single))
@@ -617,7 +748,10 @@ func TestVerif(t *testing.T) {
 	r.Bound("seq_depth", seqDepth)
 	r.Bound("seq_batches_depth3", len(seqB))
 	r.Bound("seq_batches_depth2", len(pairB))
-	r.Rule("every output variant x every batch of <=3 events over the 10-event alphabet x every sink script (ok; refused-then-retried; 413 iff more than k documents, k<n; 413 on exactly the j-th request) on a fresh WorkerData, plus every sequence of 2 (alphabet of 5, <=3 events) and 3 (reduced alphabet) batches through one WorkerData; non-trivial = >=2 deliverable events, or a parent event present, or more than one batch, or a script other than ok; states = distinct (target, script, payload bytes) tuples")
+	r.Bound("seq_alphabet_depth3", len(seqIdx))
+	r.Bound("seq_alphabet_depth2", len(pairIdx))
+	r.Bound("seq_max_events_depth3", seqMax)
+	r.Rule("every output variant x every batch of <=3 events over the 10-event alphabet x every sink script (ok; refused-then-retried; 413 iff more than k documents, k<n; 413 on exactly the j-th request) on a fresh WorkerData, plus every sequence of 2 and of 3 batches over reduced alphabets (see bounds) through one WorkerData; non-trivial = >=2 deliverable events, or a parent event present, or more than one batch, or a script other than ok; states = distinct (target, script, payload bytes) tuples")
 	r.Assume("'valid JSON document' is judged by encoding/json (invalid UTF-8 bytes inside strings are tolerated, as in the event's own encoding)")
 	r.Assume("a document carries an event when it is the same JSON value (object key order ignored, numbers by value); envelopes are compared with a reference envelope built from the event")
 	r.Assume("split clause: a run in which a single-document request is refused is given up by the plugin by design; then only 'no document accepted twice / foreign' is demanded")
@@ -630,6 +764,7 @@ func TestVerif(t *testing.T) {
 	}
 	for _, tg := range tlist {
 		// 1. single batches, all scripts
+		var iso []tcase
 		for _, b := range single {
 			mine := r.Mine(idx)
 			idx++
@@ -645,7 +780,14 @@ func TestVerif(t *testing.T) {
 				continue
 			}
 			if tg.canFail && !tg.slowFail {
-				c.runCase(tcase{Target: tg.name, Script: script{Kind: "ok"}, Retry: true, Batches: [][]evSpec{b}})
+				tc := tcase{Target: tg.name, Script: script{Kind: "ok"}, Retry: true, Batches: [][]evSpec{b}}
+				if tg.isolateRetry {
+					if len(b) <= isoMax {
+						iso = append(iso, tc)
+					}
+				} else {
+					c.runCase(tc)
+				}
 			}
 			if tg.split {
 				for k := 0; k < n; k++ {
@@ -656,6 +798,7 @@ func TestVerif(t *testing.T) {
 				}
 			}
 		}
+		c.runIsolated(iso)
 		if tg.canFail && tg.slowFail {
 			// a refused gelf write sleeps 1 s inside out(): only a few retried batches, one per shard
 			slow := batches([]int{1, 9, 5, 0}, 2)
@@ -705,7 +848,7 @@ func TestVerif(t *testing.T) {
 					if tg.split {
 						c.runCase(tcase{Target: tg.name, Script: script{Kind: "gt", K: 1}, Batches: [][]evSpec{b1, b2, b3}})
 					}
-					if tg.canFail && !tg.slowFail && r.Thorough() {
+					if tg.canFail && !tg.slowFail && !tg.isolateRetry && r.Thorough() {
 						c.runCase(tcase{Target: tg.name, Script: script{Kind: "ok"}, Retry: true, Batches: [][]evSpec{b1, b2, b3}})
 					}
 				}
